@@ -85,4 +85,62 @@ theorem gcovChange_scale (x : ℕ → Fin p → ℝ) (a : ℝ) (ha : 0 < a) (s k
     gcovCost_scale x a ha k e hd2]
   ring
 
+/-! ### the same cost on an arbitrary finite set of rows (the pooled surroundings of a local anomaly score) -/
+
+noncomputable def meanVecOn (x : ℕ → Fin p → ℝ) (T : Finset ℕ) : Fin p → ℝ :=
+  fun j => (∑ i ∈ T, x i j) / (T.card : ℝ)
+
+noncomputable def covMatOn (x : ℕ → Fin p → ℝ) (T : Finset ℕ) : Matrix (Fin p) (Fin p) ℝ :=
+  fun j k => (∑ i ∈ T, (x i j - meanVecOn x T j) * (x i k - meanVecOn x T k)) / (T.card : ℝ)
+
+noncomputable def gcovCostOn (x : ℕ → Fin p → ℝ) (T : Finset ℕ) : ℝ :=
+  (T.card : ℝ) * p * Real.log (2 * Real.pi) + (T.card : ℝ) * Real.log (covMatOn x T).det + (T.card : ℝ) * p
+
+theorem meanVecOn_scale (x : ℕ → Fin p → ℝ) (a : ℝ) (T : Finset ℕ) (j : Fin p) :
+    meanVecOn (fun i j => a * x i j) T j = a * meanVecOn x T j := by
+  simp only [meanVecOn, ← Finset.mul_sum, mul_div_assoc]
+
+theorem covMatOn_scale (x : ℕ → Fin p → ℝ) (a : ℝ) (T : Finset ℕ) :
+    covMatOn (fun i j => a * x i j) T = (a ^ 2) • covMatOn x T := by
+  funext j k
+  simp only [covMatOn, meanVecOn_scale, Matrix.smul_apply, smul_eq_mul]
+  rw [← mul_div_assoc, Finset.mul_sum]
+  congr 1
+  apply Finset.sum_congr rfl
+  intro i _
+  ring
+
+theorem gcovCostOn_scale (x : ℕ → Fin p → ℝ) (a : ℝ) (ha : 0 < a) (T : Finset ℕ) (hd : 0 < (covMatOn x T).det) :
+    gcovCostOn (fun i j => a * x i j) T = gcovCostOn x T + (T.card : ℝ) * p * Real.log (a ^ 2) := by
+  simp only [gcovCostOn, covMatOn_scale, Matrix.det_smul, Fintype.card_fin]
+  have ha2 : (0 : ℝ) < a ^ 2 := by positivity
+  rw [Real.log_mul (pow_pos ha2 p).ne' hd.ne', Real.log_pow]
+  ring
+
+/-- the rows of `[s, e)` outside `[i, j)` -/
+def surround (s i j e : ℕ) : Finset ℕ := Ico s i ∪ Ico j e
+
+theorem card_surround (s i j e : ℕ) (h1 : s ≤ i) (h2 : i ≤ j) (h3 : j ≤ e) :
+    ((surround s i j e).card : ℝ) = ((i : ℝ) - s) + ((e : ℝ) - j) := by
+  have hdisj : Disjoint (Ico s i) (Ico j e) := by
+    rw [Finset.disjoint_left]
+    intro t ht1 ht2
+    simp only [Finset.mem_Ico] at ht1 ht2
+    omega
+  rw [surround, Finset.card_union_of_disjoint hdisj, Nat.card_Ico, Nat.card_Ico]
+  push_cast [Nat.cast_sub h1, Nat.cast_sub h3]
+  ring
+
+/-- local anomaly score derived from the multivariate Gaussian cost:
+    `C(s,e) − C(i,j) − C(rows of [s,i) and [j,e) pooled)` -/
+noncomputable def gcovLocal (x : ℕ → Fin p → ℝ) : ℕ → ℕ → ℕ → ℕ → ℝ := fun s i j e =>
+  gcovCost x s e - gcovCost x i j - gcovCostOn x (surround s i j e)
+
+theorem gcovLocal_scale (x : ℕ → Fin p → ℝ) (a : ℝ) (ha : 0 < a) (s i j e : ℕ) (h1 : s ≤ i) (h2 : i ≤ j) (h3 : j ≤ e)
+    (hd : 0 < (covMat x s e).det) (hd1 : 0 < (covMat x i j).det) (hd2 : 0 < (covMatOn x (surround s i j e)).det) :
+    gcovLocal (fun i j => a * x i j) s i j e = gcovLocal x s i j e := by
+  simp only [gcovLocal, gcovCost_scale x a ha s e hd, gcovCost_scale x a ha i j hd1,
+    gcovCostOn_scale x a ha _ hd2, card_surround s i j e h1 h2 h3]
+  ring
+
 end Skc
